@@ -94,6 +94,9 @@ Cands(s, cfg) ==
       [] s = "CGKO06.SSE2" ->
             Opt(In(cfg.param_n, 1, 40), <<cfg.param_n>>) \o Opt(In(cfg.param_n, 2, 40), <<cfg.param_n - 1, 1>>)       \* files = param_n
             \o << <<3, 1, 2>>, <<1>>, <<2, 2>>, <<9, 6, 1, 1, 1>> >>
+      (* every list length from 1 to 12 and a few around the next powers of two: whichever levels the ratio and the     *)
+      (* locality select, some list falls into every window between two of them                                          *)
+      [] s = "DP17.Pi" -> << <<1, 2, 3, 4, 5, 6, 7, 8, 9, 10, 11, 12>>, <<24, 17, 9, 3>> >> \o Generic
       [] OTHER -> Generic
 (* positive control (outside the property's domain): SSE-2 with more files than param_n, one list longer than param_n *)
 Controls(s, cfg) == IF s = "CGKO06.SSE2" /\ In(cfg.param_n, 1, 40) THEN << <<cfg.param_n + 1, 1>> >> ELSE <<>>
@@ -111,7 +114,7 @@ Spec == Init /\ [][Next]_pt
 NoWrongPredicted ==
     \A i \in 1..Len(Cands(Scheme, pt)) :
         LET p == Cands(Scheme, pt)[i] IN
-        (WF(p) /\ InDomain(Scheme, pt) /\ DbValid(Scheme, pt, p, DFor(Scheme, pt, p)))
+        (WF(p) /\ InDomain(Scheme, pt) /\ ~HasFlt(Scheme, pt) /\ DbValid(Scheme, pt, p, DFor(Scheme, pt, p)))
             => "wrong" \notin StageSet(Scheme, pt, p, DFor(Scheme, pt, p))
 RequiredRefused == LacksRequired(Scheme, pt) => ConfigRaises(Scheme, pt)
 Emit == PrintT(<<"H", pt, Describe(Scheme, pt, Cands(Scheme, pt)), Describe(Scheme, pt, Controls(Scheme, pt)),
